@@ -856,5 +856,283 @@ theorem unref_core {st : St} (hi : TInv st.tree) (hd : DragOK st.tree) {c : WinT
     · rw [lt]
       exact ⟨w', by rw [ew]; exact hw', Or.inl ⟨by first | trivial | exact hr1 | omega, hf'⟩⟩
 
+/-! ### the application state: reference accounting -/
+
+/-- The store is consistent, and every live window's count is what the application owns plus what the dispatcher
+    holds (`held`: one entry per reference taken by an active `_handle_*` frame, a children snapshot, a returned
+    claim or `on_term_mouse`); a window the application has let go of has no children; the root is never let go of. -/
+structure AInv (st : St) (held : List WinTree.Id) : Prop where
+  tree : TInv st.tree
+  drag : DragOK st.tree
+  size : st.owned.size = st.tree.wins.size
+  rc : ∀ (i : WinTree.Id) (w : Win), st.tree.wins[i]? = some w → w.freed = false →
+    w.refcount = (st.owned.getD i 0 : Int) + (held.count i : Int)
+  leaf : ∀ (i : WinTree.Id) (w : Win), st.tree.wins[i]? = some w → w.freed = false → st.owned.getD i 0 = 0 →
+    w.children = []
+  held : ∀ h ∈ held, Alive st.tree h
+  root : 1 ≤ st.owned.getD 0 0
+
+theorem AInv.perm {st : St} {held held' : List WinTree.Id} (h : AInv st held) (hp : held.Perm held') : AInv st held' :=
+  { tree := h.tree, drag := h.drag, size := h.size,
+    rc := fun i w hw hf => by rw [← hp.count_eq i]; exact h.rc i w hw hf,
+    leaf := h.leaf, held := fun x hx => h.held x (hp.mem_iff.2 hx), root := h.root }
+
+/-- Back from the new store to the old one. -/
+theorem KeepOthers.back {c : WinTree.Id} {t t' : Tree} (h : KeepOthers c t t') {j : WinTree.Id} {x' : Win} (hj : j ≠ c)
+    (hx' : t'.wins[j]? = some x') :
+    ∃ x, t.wins[j]? = some x ∧ x'.freed = x.freed ∧ x'.refcount = x.refcount ∧ (x.children = [] → x'.children = []) := by
+  have hlt : j < t'.wins.size := (Array.getElem?_eq_some_iff.1 hx').1
+  have hlt' : j < t.wins.size := h.size ▸ hlt
+  have hx : t.wins[j]? = some t.wins[j] := Array.getElem?_eq_getElem hlt'
+  obtain ⟨x'', hx'', f, r, c'⟩ := h.win j _ hj hx
+  rw [hx'] at hx''; cases hx''
+  exact ⟨_, hx, f, r, c'⟩
+
+theorem Evolve.back {t t' : Tree} (h : Evolve t t') {j : WinTree.Id} {x' : Win} (hx' : t'.wins[j]? = some x') :
+    ∃ x, t.wins[j]? = some x ∧ x'.freed = x.freed ∧ x'.refcount = x.refcount ∧ (x.children = [] → x'.children = []) := by
+  have hlt : j < t'.wins.size := (Array.getElem?_eq_some_iff.1 hx').1
+  have hlt' : j < t.wins.size := h.size ▸ hlt
+  have hx : t.wins[j]? = some t.wins[j] := Array.getElem?_eq_getElem hlt'
+  obtain ⟨x'', hx'', f, r, c'⟩ := h.win j _ hx
+  rw [hx'] at hx''; cases hx''
+  exact ⟨_, hx, f, r, c'⟩
+
+/-- A store operation that is a `StepOK` keeps the application invariant. -/
+theorem AInv.step {st : St} {held : List WinTree.Id} (h : AInv st held) {t' : Tree} (s : StepOK st.tree t') :
+    AInv { st with tree := t' } held := by
+  refine ⟨s.inv, s.drag, by rw [s.ev.size]; exact h.size, ?_, ?_, fun x hx => s.ev.alive (h.held x hx), h.root⟩
+  · intro i w' hw' hf'
+    obtain ⟨w, hw, f, r, _⟩ := s.ev.back hw'
+    rw [r]; exact h.rc i w hw (by rw [← f]; exact hf')
+  · intro i w' hw' hf' ho
+    obtain ⟨w, hw, f, _, c⟩ := s.ev.back hw'
+    exact c (h.leaf i w hw (by rw [← f]; exact hf') ho)
+
+theorem getD_setIfInBounds {a : Array Nat} {i j : Nat} {v : Nat} (hi : i < a.size) :
+    (a.setIfInBounds i v).getD j 0 = if i = j then v else a.getD j 0 := by
+  simp only [Array.getD_eq_getD_getElem?, Array.getElem?_setIfInBounds, hi, if_true]
+  split <;> rfl
+
+/-- Taking a reference (a frame, a snapshot entry, `on_term_mouse`, a returned claim). -/
+theorem AInv.ref {st : St} {held : List WinTree.Id} (h : AInv st held) {c : WinTree.Id} (hc : Alive st.tree c) :
+    ∃ st', refWin st c = Res.ok st' ∧ AInv st' (c :: held) ∧ st'.binds = st.binds := by
+  obtain ⟨w, hw, hf⟩ := hc
+  unfold refWin WinTree.ref
+  rw [modify_ok hw hf]
+  refine ⟨_, rfl, ?_, rfl⟩
+  have sh := shape_set_rc hw (w.refcount + 1)
+  refine ⟨h.tree.shape sh, h.drag.shape sh rfl, by simpa using h.size, ?_, ?_, ?_, h.root⟩
+  · intro i x hx hxf
+    rcases wins_set_cases hw i x hx with ⟨rfl, rfl⟩ | ⟨hne, hx0⟩
+    · simp only [List.count_cons_self]
+      have := h.rc i w hw hf
+      omega
+    · rw [List.count_cons_of_ne (fun e => hne e.symm)]
+      exact h.rc i x hx0 hxf
+  · intro i x hx hxf ho
+    rcases wins_set_cases hw i x hx with ⟨rfl, rfl⟩ | ⟨_, hx0⟩
+    · exact h.leaf i w hw hf ho
+    · exact h.leaf i x hx0 hxf ho
+  · intro x hx
+    rcases List.mem_cons.1 hx with rfl | hx'
+    · exact ⟨_, wins_set_self hw, hf⟩
+    · exact alive_set (w' := { w with refcount := w.refcount + 1 }) hw rfl (h.held x hx')
+
+/-- Dropping a reference the dispatcher holds. -/
+theorem AInv.release {st : St} {held : List WinTree.Id} {c : WinTree.Id} (h : AInv st (c :: held)) :
+    SafeR (unrefLogged st c) (fun st' => AInv st' held ∧ st'.binds = st.binds) := by
+  obtain ⟨w, hw, hf⟩ := h.held c (List.mem_cons_self ..)
+  have hrc := h.rc c w hw hf
+  simp only [List.count_cons_self] at hrc
+  have h1 : 1 ≤ w.refcount := by omega
+  have hlast : w.refcount = 1 → w.children = [] ∧ c ≠ 0 := by
+    intro hr
+    have ho : st.owned.getD c 0 = 0 := by omega
+    refine ⟨h.leaf c w hw hf ho, ?_⟩
+    intro hc0; subst hc0
+    have := h.root; omega
+  refine (unref_core h.tree h.drag hw hf h1 hlast).mono ?_
+  intro st' ⟨hb, ho, hi', hd', ko, w', hw', hcase⟩
+  refine ⟨⟨hi', hd', by rw [ho, ko.size]; exact h.size, ?_, ?_, ?_, by rw [ho]; exact h.root⟩, hb⟩
+  · intro i x' hx' hxf'
+    rw [ho]
+    by_cases hic : i = c
+    · subst hic
+      rw [hw'] at hx'; cases hx'
+      rcases hcase with ⟨_, hfr⟩ | ⟨_, _, hr, _⟩
+      · rw [hfr] at hxf'; cases hxf'
+      · rw [hr]; omega
+    · obtain ⟨x, hx, f, r, _⟩ := ko.back hic hx'
+      have := h.rc i x hx (by rw [← f]; exact hxf')
+      rw [List.count_cons_of_ne (fun e => hic e.symm)] at this
+      rw [r]; exact this
+  · intro i x' hx' hxf' hoi
+    rw [ho] at hoi
+    by_cases hic : i = c
+    · subst hic
+      rw [hw'] at hx'; cases hx'
+      rcases hcase with ⟨_, hfr⟩ | ⟨_, _, _, hch⟩
+      · rw [hfr] at hxf'; cases hxf'
+      · rw [hch]; exact h.leaf i w hw hf hoi
+    · obtain ⟨x, hx, f, _, cc⟩ := ko.back hic hx'
+      exact cc (h.leaf i x hx (by rw [← f]; exact hxf') hoi)
+  · intro x hx
+    by_cases hxc : x = c
+    · subst hxc
+      have hcnt : 1 ≤ List.count x held := List.count_pos_iff.2 hx
+      rcases hcase with ⟨hr1, _⟩ | ⟨_, hfr, _, _⟩
+      · omega
+      · exact ⟨w', hw', hfr⟩
+    · obtain ⟨y, hy, hyf⟩ := h.held x (List.mem_cons_of_mem _ hx)
+      obtain ⟨y', hy', f, _, _⟩ := ko.win x y hxc hy
+      exact ⟨y', hy', by rw [f]; exact hyf⟩
+
+/-! ### the application's actions -/
+
+/-- The mutations covered: what the property names (close, unref), plus ref, hide, show and steal-input.
+    (Restacking requests and `take_focus` from inside handlers are not covered here.) -/
+def ActOK (a : Action) : Prop :=
+  a.act = .close ∨ a.act = .unref ∨ a.act = .keep ∨ a.act = .hide ∨ a.act = .unhide ∨ a.act = .stealOn ∨ a.act = .stealOff
+
+/-- Every behaviour table uses covered actions only. -/
+def TableOK (binds : Array Binding) : Prop :=
+  ∀ (i : Nat) (b : Binding), binds[i]? = some b → ∀ e ∈ b.entries, ∀ a ∈ e.actions, ActOK a
+
+theorem TableOK.entry {binds : Array Binding} (hs : TableOK binds) {i : Nat} {b : Binding} (h : binds[i]? = some b) :
+    ∀ a ∈ b.entry.actions, ActOK a := by
+  unfold Binding.entry
+  rcases getD_mem_or b.entries (entryIndex b) { ret := false } with hm | hd
+  · exact hs i b h _ hm
+  · rw [hd]; intro a ha; cases ha
+
+theorem TableOK.bump {binds : Array Binding} (hs : TableOK binds) {i : Nat} {b : Binding} (h : binds[i]? = some b) (k : Nat) :
+    TableOK (binds.setIfInBounds i { b with count := k }) := by
+  intro j x hx e he
+  rw [Array.getElem?_setIfInBounds] at hx
+  by_cases hij : i = j
+  · subst hij
+    simp only [if_true] at hx
+    split at hx
+    · cases hx; exact hs i b h e he
+    · cases hx
+  · simp only [hij, if_false] at hx
+    exact hs j x hx e he
+
+theorem allowed_alive {st : St} {a : Action} (h : allowed st a = true) :
+    ∃ w, st.tree.wins[a.win]? = some w ∧ w.freed = false := by
+  unfold allowed at h
+  cases hw : st.tree.wins[a.win]? with
+  | none => simp [hw] at h
+  | some w =>
+    simp only [hw] at h
+    by_cases hf : w.freed = true
+    · simp [hf] at h
+    · exact ⟨w, rfl, by simpa using hf⟩
+
+theorem doAction_safe {st : St} {held : List WinTree.Id} (h : AInv st held) {a : Action} (ha : ActOK a) :
+    SafeR (doAction st a) (fun st' => AInv st' held ∧ st'.binds = st.binds) := by
+  unfold doAction
+  by_cases hal : allowed st a = true
+  · simp only [hal, Bool.not_true, Bool.false_eq_true, if_false]
+    obtain ⟨w, hw, hf⟩ := allowed_alive hal
+    have hAl : Alive st.tree a.win := ⟨w, hw, hf⟩
+    have stepTo : ∀ (r : Res Tree), SafeR r (StepOK st.tree) →
+        SafeR (r >>= fun t => pure ({ st with tree := t } : St)) (fun st' => AInv st' held ∧ st'.binds = st.binds) :=
+      fun r hr => SafeR.bind hr fun t' s => ⟨h.step s, rfl⟩
+    have flag : ∀ (g : Win → Win), (∀ w, (g w).parent = w.parent ∧ (g w).children = w.children ∧
+        (g w).focusedChild = w.focusedChild ∧ (g w).freed = w.freed ∧ (g w).refcount = w.refcount ∧
+        (g w).isClosed = w.isClosed) →
+        SafeR (WinTree.modify st.tree a.win g >>= fun t => pure ({ st with tree := t } : St))
+          (fun st' => AInv st' held ∧ st'.binds = st.binds) :=
+      fun g hg => stepTo _ (modify_flag_safe h.tree h.drag hAl g hg)
+    rcases ha with ha | ha | ha | ha | ha | ha | ha <;> simp only [ha]
+    · -- close
+      apply SafeR.bind (close_safe h.tree h.drag _ hw hf)
+      intro t' ⟨s, _⟩
+      obtain ⟨dok, ew, ec⟩ := normalizeDrag_ok t'
+      exact ⟨h.step ⟨s.inv.normalizeDrag, dok, s.ev.trans (Evolve.of_wins ew)⟩, rfl⟩
+    · -- unref
+      unfold allowed at hal
+      simp only [hw, hf, Bool.false_eq_true, if_false, ha, Bool.and_eq_true, decide_eq_true_eq, bne_iff_ne, ne_eq,
+        List.isEmpty_iff] at hal
+      obtain ⟨⟨ho, hne⟩, hch⟩ := hal
+      have hrc := h.rc a.win w hw hf
+      have hlt : a.win < st.owned.size := by
+        rw [h.size]; exact (Array.getElem?_eq_some_iff.1 hw).1
+      have hi0 : TInv ({ st with owned := st.owned.setIfInBounds a.win (st.owned.getD a.win 0 - 1) } : St).tree := h.tree
+      refine (unref_core (st := { st with owned := st.owned.setIfInBounds a.win (st.owned.getD a.win 0 - 1) })
+        hi0 h.drag hw hf (by omega) (fun _ => ⟨hch, hne⟩)).mono ?_
+      intro st' ⟨hb, hoo, hi', hd', ko, w', hw', hcase⟩
+      refine ⟨⟨hi', hd', by rw [hoo]; simp only [Array.size_setIfInBounds]; rw [ko.size]; exact h.size, ?_, ?_, ?_, ?_⟩, hb⟩
+      · intro i x' hx' hxf'
+        rw [hoo, getD_setIfInBounds hlt]
+        by_cases hic : a.win = i
+        · subst hic
+          simp only [if_true]
+          rw [hw'] at hx'; cases hx'
+          rcases hcase with ⟨_, hfr⟩ | ⟨_, _, hr, _⟩
+          · rw [hfr] at hxf'; cases hxf'
+          · rw [hr]; omega
+        · simp only [hic, if_false]
+          obtain ⟨x, hx, f, r, _⟩ := ko.back (fun e => hic e.symm) hx'
+          rw [r]; exact h.rc i x hx (by rw [← f]; exact hxf')
+      · intro i x' hx' hxf' hoi
+        rw [hoo, getD_setIfInBounds hlt] at hoi
+        by_cases hic : a.win = i
+        · subst hic
+          rw [hw'] at hx'; cases hx'
+          rcases hcase with ⟨_, hfr⟩ | ⟨_, _, _, hcc⟩
+          · rw [hfr] at hxf'; cases hxf'
+          · rw [hcc]; exact hch
+        · simp only [hic, if_false] at hoi
+          obtain ⟨x, hx, f, _, cc⟩ := ko.back (fun e => hic e.symm) hx'
+          exact cc (h.leaf i x hx (by rw [← f]; exact hxf') hoi)
+      · intro x hx
+        by_cases hxc : x = a.win
+        · rw [hxc] at hx ⊢
+          have hcnt : 1 ≤ List.count a.win held := List.count_pos_iff.2 hx
+          rcases hcase with ⟨hr1, _⟩ | ⟨_, hfr, _, _⟩
+          · omega
+          · exact ⟨w', hw', hfr⟩
+        · obtain ⟨y, hy, hyf⟩ := h.held x hx
+          obtain ⟨y', hy', f, _, _⟩ := ko.win x y hxc hy
+          exact ⟨y', hy', by rw [f]; exact hyf⟩
+      · rw [hoo, getD_setIfInBounds hlt, if_neg hne]; exact h.root
+    · -- keep
+      unfold WinTree.ref
+      rw [modify_ok hw hf]
+      simp only [res_bind_ok, res_pure]
+      have hlt : a.win < st.owned.size := by
+        rw [h.size]; exact (Array.getElem?_eq_some_iff.1 hw).1
+      have sh := shape_set_rc hw (w.refcount + 1)
+      refine ⟨⟨h.tree.shape sh, h.drag.shape sh rfl, by simpa using h.size, ?_, ?_, ?_, ?_⟩, rfl⟩
+      · intro i x hx hxf
+        rw [getD_setIfInBounds hlt]
+        rcases wins_set_cases hw i x hx with ⟨hi', rfl⟩ | ⟨hne, hx0⟩
+        · rw [hi', if_pos rfl]
+          have := h.rc a.win w hw hf
+          simp only at this ⊢
+          omega
+        · rw [if_neg (fun e => hne (Eq.symm e))]
+          exact h.rc i x hx0 hxf
+      · intro i x hx hxf ho
+        rw [getD_setIfInBounds hlt] at ho
+        rcases wins_set_cases hw i x hx with ⟨hi', rfl⟩ | ⟨hne, hx0⟩
+        · rw [hi', if_pos rfl] at ho; omega
+        · rw [if_neg (fun e => hne (Eq.symm e))] at ho
+          exact h.leaf i x hx0 hxf ho
+      · intro x hx
+        exact alive_set (w' := { w with refcount := w.refcount + 1 }) hw rfl (h.held x hx)
+      · rw [getD_setIfInBounds hlt]
+        split
+        · have := h.root; omega
+        · exact h.root
+    · exact stepTo _ (hide_safe h.tree h.drag _ hAl)
+    · exact stepTo _ (show_safe h.tree h.drag _ hAl)
+    · exact flag _ (fun w => ⟨rfl, rfl, rfl, rfl, rfl, rfl⟩)
+    · exact flag _ (fun w => ⟨rfl, rfl, rfl, rfl, rfl, rfl⟩)
+  · simp only [hal, Bool.not_false, if_true]
+    exact ⟨⟨h.tree, h.drag, h.size, h.rc, h.leaf, h.held, h.root⟩, rfl⟩
+
 end WinInput
 end Tickit
